@@ -40,6 +40,8 @@ def bop (ctx : Array (Option RCell)) (tok : String) : Option (BOp RCell) :=
   | ["d", n] => if n == "-" then some (BOp.storeDict none) else do pure (BOp.storeDict (some (← node n)))
   | ["s", h] => do pure (BOp.storeString (← hexArg h))
   | ["sns", h, p] => do pure (BOp.storeSnakeString mkCell (← hexArg h) (p == "1"))
+  -- an interim `end_cell()` whose result is dropped: the builder is unchanged (it raises iff the cell cannot be built)
+  | ["ec"] => some (fun b => (b, (mkCell b.bits b.refs).isSome))
   | _ => none
 
 /-- `bscript <dag|-> <ops;...>` → `ok <flags> <bits> <refs> <endcell hash|err>` -/
